@@ -120,7 +120,12 @@ def main():
     mc = tlc.run_tlc('MC_Categories', 'MC_Categories_q.cfg' if a.tier == 'quick' else 'MC_Categories_t.cfg',
                      workers=4, timeout=1500, label='MC_Categories')
     run.add_tlc(mc)
-    recs = record_all(a.tier, a.seed) if not a.replay_case else [a.replay_case['case']['record']]
+    recs = record_all(a.tier, a.seed)
+    if a.replay_case:
+        st = a.replay_case['case']['record']
+        recs = [r for r in recs if all(r.get(k) == st.get(k) for k in ('op', 'a', 'b', 'incall', 'inc', 'exc'))][:1]
+        if not recs:
+            raise MachineryError('replay: the stored input is not part of the recorded table any more')
     logs = chunk(recs, 400 if a.tier == 'quick' else 4000)
     # self-test of the binding: one corrupted record must be rejected
     probe = [dict(r) for r in recs[:50]]
